@@ -80,10 +80,20 @@ def run(R):
     lean_ok, lrep = pxvlib.lean_obligations(R, ["Pxv.Thm.C03"])
     obs, info, rt = e2e_stage.get_runtime(R)
     R.coverage["e2e_stage"] = {k: v for k, v in info.items()}
+    fails, dis = [], []
+    # corpus: protocol lines of the `life` driver with pinned answers (model regression)
+    cl = [json.loads(l) for l in pxvlib.corpus_lines("C03")]
+    cl = [c for c in cl if "op" in c and "expect" in c]
+    if cl:
+        outs = pxvlib.run_model("life", [json.dumps({k: v for k, v in c.items() if k not in ("expect", "note")}) for c in cl])
+        for c, o in zip(cl, outs):
+            got = json.loads(o)
+            for k, v in c["expect"].items():
+                if got.get(k) != v:
+                    dis.append({"what": "corpus line: model answer changed", "note": c.get("note"), "field": k})
     progs = [n for n, d in rt.items() if lifetrace.usable(obs[n]["spec"]) and d["result"] and "responses" in d["result"]]
     llines = [json.dumps(gen_scopes.life_request(obs[n]["spec"])) for n in progs]
     louts = [json.loads(x) for x in pxvlib.run_model("life", llines)] if llines else []
-    fails, dis = [], []
     n_req = n_nontrivial = n_values = 0
     seen = set()
     hist = {"requests": {}, "by-family": {}, "hoisted_components": 0, "transient_nodes": 0, "singleton_fields": 0}
